@@ -68,6 +68,16 @@ def run(sc, workdir):
                     lo, hi = p.limits
                     if lo < v < hi:
                         pars[p.name] = v
+            # lengths that default to zero (interface roughness ...) are switched on, and lattice distortion is
+            # raised so that the peaks of paracrystals are broad enough for the quadratures to resolve
+            lengths = [pars[p.name] for p in P.call_parameters if p.type == "volume" and p.units == "Ang" and pars.get(p.name, 0) > 0]
+            for p in P.call_parameters:
+                if p.name in pars and p.type not in ("volume", "orientation", "sld") and p.units == "Ang" and pars[p.name] == 0.0 and lengths:
+                    pars[p.name] = rng.choice([0.1, 0.25]) * min(lengths)
+                if p.name == "d_factor":
+                    pars[p.name] = rng.choice([0.25, 0.35])
+                if p.name == "x_core" and rng.random() < 0.6:
+                    pars[p.name] = 1.0          # circular cross-section
         pars["scale"], pars["background"] = 1.0, 0.0
         return pars
 
